@@ -185,7 +185,7 @@ pub fn converge_main(args: &[String]) {
     let incremental = norm_diags(s.last_diagnostics(&uri));
     let inc_panicked = s.panicked;
     if spec["no_fresh"].as_bool() == Some(true) {
-        println!("{}", json!({"incremental": incremental, "server_text": server_text, "panicked": inc_panicked}));
+        println!("{}", json!({"incremental": incremental, "server_text": server_text, "panicked": inc_panicked, "panic": crate::LAST_PANIC.lock().unwrap().clone()}));
         std::process::exit(0);
     }
     // a freshly started server on the final text (same process: the first server's state is private to it,
